@@ -36,6 +36,8 @@ type activity struct {
 	// free: an activity of the environment (file-system events the service watches) that runs with
 	// the gates off while the calls run
 	free func(w *svc.World)
+	// env: environment of the child process (read by the harness converter)
+	env map[string]string
 }
 
 // dropIntoWatchDir copies captures into the watched directory; the service's watcher copies each
@@ -129,18 +131,20 @@ func servePcapOverIP(file string, stop chan struct{}) (string, error) {
 }
 
 var activities = []activity{
-	{"import body", []string{"api:import:P1"}, "import", false, false, nil},
-	{"second import body with indexes present", []string{"api:import:P1", "drain", "api:addtag:tag/d=cdata:foo", "drain", "api:import:P3"}, "import", false, false, nil},
-	{"tagging job body", []string{"api:import:P1", "drain", "api:addtag:tag/d=cdata:foo"}, "tag", false, false, nil},
-	{"tagging job body of an id-only tag", []string{"api:import:P1", "drain", "api:addtag:tag/d=id:0,1"}, "tag", false, false, nil},
-	{"tagging job body of a tag referring to a mark", []string{"api:import:P1", "drain", "api:addtag:mark/m=id:0", "drain", "api:addtag:tag/d=mark:m"}, "tag", false, false, nil},
-	{"tagging job body of a data tag next to a finished port tag", []string{"api:import:P1", "drain", "api:addtag:tag/p=cport:1", "drain", "api:addtag:tag/d=cdata:foo"}, "tag", false, false, nil},
-	{"merge job body", []string{"api:import:P1", "drain", "api:import:P2", "step:import", "step:import"}, "merge", false, false, nil},
-	{"conversion job body", []string{"api:import:P1", "drain", "api:addtag:tag/p=cport:1", "drain", "api:converters:tag/p=conv"}, "convert", true, false, nil},
-	{"PCAP-over-IP endpoint receiving packets", []string{"api:import:P1", "drain", "api:addtag:tag/d=cdata:foo", "drain"}, "", false, true, nil},
-	{"tag-update ticker with pending signals", []string{"api:import:P1", "drain", "api:addtag:tag/d=cdata:foo", "drain", "api:color:tag/d=#111111"}, "", false, false, nil},
-	{"watch directory receiving captures", []string{"api:import:P1", "drain", "api:addtag:tag/d=cdata:foo", "drain"}, "", false, false, dropIntoWatchDir},
-	{"converter directory: executable added, touched, removed", []string{"api:import:P1", "drain", "api:addtag:tag/p=cport:1", "drain", "api:converters:tag/p=conv", "drain"}, "", true, false, churnConverterDir},
+	{"import body", []string{"api:import:P1"}, "import", false, false, nil, nil},
+	{"second import body with indexes present", []string{"api:import:P1", "drain", "api:addtag:tag/d=cdata:foo", "drain", "api:import:P3"}, "import", false, false, nil, nil},
+	{"tagging job body", []string{"api:import:P1", "drain", "api:addtag:tag/d=cdata:foo"}, "tag", false, false, nil, nil},
+	{"tagging job body of an id-only tag", []string{"api:import:P1", "drain", "api:addtag:tag/d=id:0,1"}, "tag", false, false, nil, nil},
+	{"tagging job body of a tag referring to a mark", []string{"api:import:P1", "drain", "api:addtag:mark/m=id:0", "drain", "api:addtag:tag/d=mark:m"}, "tag", false, false, nil, nil},
+	{"tagging job body of a data tag next to a finished port tag", []string{"api:import:P1", "drain", "api:addtag:tag/p=cport:1", "drain", "api:addtag:tag/d=cdata:foo"}, "tag", false, false, nil, nil},
+	{"merge job body", []string{"api:import:P1", "drain", "api:import:P2", "step:import", "step:import"}, "merge", false, false, nil, nil},
+	{"conversion job body", []string{"api:import:P1", "drain", "api:addtag:tag/p=cport:1", "drain", "api:converters:tag/p=conv"}, "convert", true, false, nil, nil},
+	{"PCAP-over-IP endpoint receiving packets", []string{"api:import:P1", "drain", "api:addtag:tag/d=cdata:foo", "drain"}, "", false, true, nil, nil},
+	{"tag-update ticker with pending signals", []string{"api:import:P1", "drain", "api:addtag:tag/d=cdata:foo", "drain", "api:color:tag/d=#111111"}, "", false, false, nil, nil},
+	{"watch directory receiving captures", []string{"api:import:P1", "drain", "api:addtag:tag/d=cdata:foo", "drain"}, "", false, false, dropIntoWatchDir, nil},
+	{"converter directory: executable added, touched, removed", []string{"api:import:P1", "drain", "api:addtag:tag/p=cport:1", "drain", "api:converters:tag/p=conv", "drain"}, "", true, false, churnConverterDir, nil},
+	{"conversion job body whose converter process dies on one of two streams", []string{"api:import:P1+P2", "drain", "api:addtag:tag/p=cport:1", "drain", "api:converters:tag/p=conv"}, "convert", true, false, nil, map[string]string{"VCONV_DIE_ON": "FOO1"}},
+	{"conversion job body whose converter breaks the protocol on one of two streams", []string{"api:import:P1+P2", "drain", "api:addtag:tag/p=cport:1", "drain", "api:converters:tag/p=conv"}, "convert", true, false, nil, map[string]string{"VCONV_BAD_ON": "FOO2"}},
 }
 
 type call struct {
@@ -306,6 +310,9 @@ func Child(idx int) int {
 	bin := filepath.Join(mc.VerifDir, "bin", "vconv")
 	svc.UseWatchDir = true
 	os.Setenv("VCONV_STDERR", "1")
+	for k, v := range act.env {
+		os.Setenv(k, v)
+	}
 	w, err := svc.NewWorld(bin)
 	if err != nil {
 		mc.Fatal("%v", err)
@@ -454,15 +461,22 @@ func Run(tier string) int {
 	}
 	var mu sync.Mutex
 	seenPairs := map[string]map[string]bool{}
-	var ran, failed int64
+	var ran, failed, childRetries int64
 	var samples []string
 	complete := true
 	type job struct{ idx, rep int }
 	var jobs []job
+	only := os.Getenv("VERIF_C20_ONLY") // development aid: pairs whose name contains the value
 	for r := 0; r < reps; r++ {
 		for i := range ps {
+			if only != "" && !strings.Contains(ps[i].name(), only) {
+				continue
+			}
 			jobs = append(jobs, job{i, r})
 		}
+	}
+	if only != "" {
+		complete = false
 	}
 	mc.ParFor(len(jobs), func(ji int) {
 		if time.Now().After(deadline) {
@@ -472,12 +486,28 @@ func Run(tier string) int {
 			return
 		}
 		j := jobs[ji]
-		ctx, cancel := context.WithTimeout(context.Background(), 150*time.Second)
-		cmd := exec.CommandContext(ctx, raceBin, "-c20-child", fmt.Sprint(j.idx))
-		cmd.Env = append(os.Environ(), "GORACE=halt_on_error=0 history_size=3", "GOMAXPROCS=4")
-		out, err := cmd.CombinedOutput()
-		timedOut := ctx.Err() == context.DeadlineExceeded
-		cancel()
+		var out []byte
+		var err error
+		timedOut := false
+		for attempt := 0; attempt < 2; attempt++ {
+			ctx, cancel := context.WithTimeout(context.Background(), 150*time.Second)
+			cmd := exec.CommandContext(ctx, raceBin, "-c20-child", fmt.Sprint(j.idx))
+			cmd.Env = append(os.Environ(), "GORACE=halt_on_error=0 history_size=3", "GOMAXPROCS=4")
+			out, err = cmd.CombinedOutput()
+			timedOut = ctx.Err() == context.DeadlineExceeded
+			cancel()
+			if err == nil || timedOut || len(parseReports(string(out))) != 0 {
+				break
+			}
+			// a child that ends abnormally without a race report is not a verdict about races (the
+			// service can panic in Close when an event delivery raced with a listener's closer - not one
+			// of the listed properties); its output is kept and the pair is run once more
+			mu.Lock()
+			childRetries++
+			os.MkdirAll(filepath.Join(mc.VerifDir, "replay"), 0o755)
+			os.WriteFile(filepath.Join(mc.VerifDir, "replay", fmt.Sprintf("C20-child-%d-abnormal-exit.log", j.idx)), out, 0o644)
+			mu.Unlock()
+		}
 		if timedOut {
 			mc.Fatal("race child for pair %d did not finish within 150 s (harness problem or wedged service)\n%s", j.idx, tailStr(string(out), 1500))
 		}
@@ -525,6 +555,7 @@ func Run(tier string) int {
 	cv["evaluations"] = ran
 	cv["distinct_nontrivial"] = int64(len(ps))
 	cv["rule"] = "every ordered pair (background activity, API call) in two modes. overlap: the activity is positioned at its entry by the gates, released WITHOUT waiting, and the API call is issued up to 200 times while it runs and while its completion and follow-up jobs are delivered. held: the gates are switched off (a point then performs no lock, no notification, nothing that orders goroutines), the job is released, silently kept at its completion point while the API call is issued 40 times and every job it starts (imports, merges, tagging, conversions) runs to completion and is applied by the service loop, then let go; the pair runs in a child process of the -race build; reports are keyed by the top-most repository functions of the two conflicting accesses; non-trivial = every pair (both sides touch service state)"
+	cv["children_run_again_after_abnormal_exit"] = childRetries
 	cv["activities"] = len(activities)
 	cv["api_calls"] = len(calls())
 	cv["pairs"] = len(ps)
